@@ -54,7 +54,10 @@ def decode_payload(pl):
         return None
 
 
-def reference_framer(stream):
+SMALL_MAX = 400     # seam value of MAX_MESSAGE_SIZE for the streams that contain frames of exactly / almost the maximum size
+
+
+def reference_framer(stream, MAXLEN=MAXLEN):
     """-> (list of dispatched (hdr, msg), refusal index or None).  refusal index = index of the byte whose arrival
     completes the offending field / payload"""
     out = []
@@ -175,12 +178,31 @@ def streams(ctx):
     for nm, bad in variants:
         out.append(('good+' + nm + '+tail', good + bad + (tail if 'header-only' not in nm and 'truncated' not in nm else b'')))
         out.append((nm + '+tail', bad + (tail if 'header-only' not in nm and 'truncated' not in nm else b'')))
+    # frames of exactly / almost the maximum size (with the size limit rebound to SMALL_MAX), followed by more frames
+    from skepticoin.networking import messages as M
+
+    def hello_of(total):
+        ua = total - 355
+        m = M.HelloMessage([M.SupportedVersion(0)], IPv6Address('::ffff:9.9.9.9'), 1, IPv6Address(0), 2412, 77, b'u' * ua)
+        pl = M.MessageHeader(1_700_000_000, 9, 0, 99).serialize() + m.serialize()
+        assert len(pl) == total, (len(pl), total)
+        return pl
+    small_frames = {'getpeers': frame(payload('getpeers', 2)), 'inv0': frame(payload('inv0', 3))}
+    for L in (SMALL_MAX, SMALL_MAX - 1, SMALL_MAX - 8, SMALL_MAX + 1):
+        big = frame(hello_of(L))
+        out.append(('max:hello%d+getpeers' % L, big + small_frames['getpeers']))
+        out.append(('max:getpeers+hello%d+inv0' % L, small_frames['getpeers'] + big + small_frames['inv0']))
+        if not ctx.quick:
+            out.append(('max:hello%d+hello%d' % (L, L), big + big))
     return out
 
 
 def _worker(arg):
     name, stream, three = arg
-    exp_msgs, exp_ref = reference_framer(stream)
+    import skepticoin.networking.remote_peer as rp
+    small = name.startswith('max:')
+    rp.MAX_MESSAGE_SIZE = SMALL_MAX if small else MAXLEN
+    exp_msgs, exp_ref = reference_framer(stream, SMALL_MAX if small else MAXLEN)
     bad = []
     n = 0
     outcomes = set()
@@ -213,8 +235,8 @@ def run(ctx):
     if rp.MAGIC != MAGIC or rp.MAX_MESSAGE_SIZE != MAXLEN:
         ctx.violation('constants', "MAGIC / MAX_MESSAGE_SIZE changed: %r %r" % (rp.MAGIC, rp.MAX_MESSAGE_SIZE), {'name': None})
     sts = streams(ctx)
-    maxlen3 = 330 if ctx.quick else 470
-    jobs = [(nm, s, len(s) <= maxlen3) for nm, s in sts]
+    maxlen3 = 330 if ctx.quick else 520
+    jobs = [(nm, s, len(s) <= maxlen3 or nm.startswith('max:hello')) for nm, s in sts]
     if ctx.seed:
         import random
         random.Random(ctx.seed).shuffle(jobs)
@@ -238,11 +260,14 @@ def run(ctx):
 
 
 def replay(data, ctx):
+    import skepticoin.networking.remote_peer as rp
     if data['name'] is None:
         return [('constants', 'changed')]
     sts = dict(streams(type(ctx)(ctx.pid, 'thorough', 0)))
     s = sts[data['name']]
-    exp_msgs, exp_ref = reference_framer(s)
+    small = data['name'].startswith('max:')
+    rp.MAX_MESSAGE_SIZE = SMALL_MAX if small else MAXLEN
+    exp_msgs, exp_ref = reference_framer(s, SMALL_MAX if small else MAXLEN)
     out = []
     for mode in ('receiver', 'peer'):
         got, at, exc = run_cut(s, data['cuts'], mode)
